@@ -219,6 +219,19 @@ macro_rules! radix {
 
                 match radix {
                     2 | 4 | 16 | 256 => {
+                        // most significant zero digits contribute neither to the value nor to overflow
+                        let mut input_digits_len = input_digits_len;
+                        while input_digits_len > 0 {
+                            let idx = if BE {
+                                buf.len() - input_digits_len
+                            } else {
+                                input_digits_len - 1
+                            };
+                            if Self::byte_to_digit::<FROM_STR>(buf[idx]) != 0 {
+                                break;
+                            }
+                            input_digits_len -= 1;
+                        }
                         let mut out = Self::ZERO;
                         let base_digits_per_digit = (digit::$Digit::BITS_U8 / ilog2(radix)) as usize;
                         let full_digits = input_digits_len / base_digits_per_digit as usize;
